@@ -131,7 +131,7 @@ class VariableSetProcessor(Collector):
         check_id = self.__var_cache.check_id(identity_hash_id)
         if check_id is not None:
             # this means the watch result is already in the var_lookup
-            return VariableId(check_id, name), str(value)
+            return VariableId(check_id, name), self.__log_str(value)
 
         # else this is an unknown value so process breadth first
         var_ids = []
@@ -148,7 +148,15 @@ class VariableSetProcessor(Collector):
 
         var_id = self.__var_cache.check_id(identity_hash_id)
 
-        return VariableId(var_id, name), str(value)
+        return VariableId(var_id, name), self.__log_str(value)
+
+    @staticmethod
+    def __log_str(value: any) -> str:
+        """Get the text to use when the value is interpolated into a log message (str can fail on user types)."""
+        try:
+            return str(value)
+        except Exception:
+            return f'{type(value)}@{id(value)}'
 
     def search_function(self, node: Node) -> bool:
         """
